@@ -876,6 +876,15 @@ func (s *Shape) expansionRootAndForeignPredicate() (boundRoot, unboundRoot bool)
 				return !foreign
 			})
 		}
+		// ... and so are kinds or a property map on a node pattern of the same MATCH that restates a bound variable
+		// (`optional match ()-[*]->(x), (n:A)`): a constraint on the previous frame only
+		for _, other := range m.Parts {
+			for _, n := range other.Nodes {
+				if v := varName(n.Variable); v != "" && bound[v] && v != left && v != right && (len(n.Kinds) > 0 || n.Properties != nil) {
+					foreign = true
+				}
+			}
+		}
 		if m.Match.Where == nil && !foreign {
 			return
 		}
@@ -993,6 +1002,63 @@ func ExactRangeIntoBoundNode(q *Shape) bool {
 func init() {
 	Findings = append(Findings, Finding{"continuation-step-rejoins-carried-node", ContinuationStepIntoCarriedNode})
 	Findings = append(Findings, Finding{"pattern-predicate-constrains-bound-variable", PatternPredicateConstrainsBoundVariable})
+	Findings = append(Findings, Finding{"optional-match-after-unmatched-optional-match", OptionalMatchAfterOptionalMatch})
+}
+
+// OptionalMatchAfterOptionalMatch: an OPTIONAL MATCH is joined back to the incoming frame on equality of ALL incoming
+// columns (`left outer join s3 on (s2.n0 = s3.n0) and (s2.e0 = s3.e0)`, translate/match.go). A column that an
+// earlier OPTIONAL MATCH left NULL never compares equal, so for such a row the later OPTIONAL MATCH finds nothing
+// even when its pattern matches: `match (n) optional match (n)-[r]->(n) optional match (x) return n, x` returns
+// x = null for every n without a self loop. Same join-back as optional-match-duplicate-origin-rows (a repair of
+// either changes golden SQL). Shape: an OPTIONAL MATCH that follows, in the same query part, an OPTIONAL MATCH
+// which introduces a variable.
+func OptionalMatchAfterOptionalMatch(q *Shape) bool {
+	for _, p := range q.Parts {
+		bound := map[string]bool{}
+		nullable := false
+		for _, m := range p.Matches {
+			if m.Match == nil {
+				continue
+			}
+			introduces := false
+			for _, ps := range m.Parts {
+				for _, n := range ps.Nodes {
+					if v := varName(n.Variable); v != "" && !bound[v] {
+						introduces = true
+					}
+				}
+				for _, r := range ps.Rels {
+					if v := varName(r.Variable); v != "" && !bound[v] {
+						introduces = true
+					}
+				}
+				if ps.Part != nil && varName(ps.Part.Variable) != "" {
+					introduces = true
+				}
+			}
+			if m.Match.Optional && m.Index > 0 {
+				if nullable {
+					return true
+				}
+				if introduces {
+					nullable = true
+				}
+			}
+			for _, ps := range m.Parts {
+				for _, n := range ps.Nodes {
+					if v := varName(n.Variable); v != "" {
+						bound[v] = true
+					}
+				}
+				for _, r := range ps.Rels {
+					if v := varName(r.Variable); v != "" {
+						bound[v] = true
+					}
+				}
+			}
+		}
+	}
+	return false
 }
 
 // PatternPredicateConstrainsBoundVariable: a pattern predicate in which a node pattern restates a variable bound
